@@ -1336,6 +1336,13 @@ class World(object):
             for rec in self.snap["state"]["sequence"]:
                 if rec.get("status") == "paused" and (self.p["tasks"].get(rec.get("id")) or {}).get("with"):
                     return "KF-resume-leaves-items-task-paused", ["resume_with_paused_items_task"]
+            # variant: the paused task was woken by its next items after the workflow had turned
+            # pausing again; it runs them, is never told, and keeps items that are not offered
+            for x in self.ledger.execs:
+                it = x.items
+                if it is not None and x.state == "running" and not it["inflight"] and it.get("n") \
+                        and len(set(it["offered"])) < it["n"]:
+                    return "KF-resume-leaves-items-task-paused", ["resume_with_paused_items_task"]
         return None, []
 
     def kf_queued_items_task(self):
